@@ -1,7 +1,1313 @@
-//! C09 — not implemented yet.
+//! C09 — pruned top-k (wand / bmw) equals exhaustive top-k (bm25).
+//! Engine: inputmc prune — every small corpus over a fixed document-shape alphabet x 1-2 segment
+//! layouts x scored query trees x limit 1..4 x {wand, bmw with block sizes 1,2,3,128,300},
+//! compared differentially with the `bm25` execution of the same request.
+//!
+//! This file also hosts the helpers shared with C10 / C19 / C20: the world alphabet, the scored
+//! query-tree alphabet, an independent BM25 / score-tree oracle and the ranking comparison.
+
+use std::collections::{BTreeMap, BTreeSet, HashSet};
+use std::sync::atomic::{AtomicBool, AtomicU64, Ordering};
+
+use parking_lot::Mutex;
+use rayon::prelude::*;
+use serde_json::{json, Value};
+
+use searchlite_core::api::IndexReader;
+use vcore::ev::Reporter;
+use vcore::inp::*;
+use vcore::world::*;
+
 use crate::Ctx;
 
-pub fn run(_ctx: &Ctx) -> i32 {
-  eprintln!("C09: check not implemented");
-  2
+pub const SIG_H8: &str = "C09-pruning-bound-ignores-custom-score";
+pub const SIG_BMW: &str = "C09-bmw-current-block-bound-applied-to-later-blocks";
+
+// ---------------------------------------------------------------------------------------------
+// Failure log: keeps the smallest witnesses (by enumeration key) per failure class and reports
+// them simplest-first after the parallel sweep: unexplained failures first, then one class after
+// the other. Every failure is still counted through `Reporter::fail`.
+
+pub type FailKey = Vec<u64>;
+
+/// Run `f` over `items` in parallel, in consecutive chunks (so that under a wall budget the
+/// completed part is a prefix of the simplest-first enumeration). Returns (items completed, capped).
+pub fn par_sweep<T: Sync>(items: &[T], rep: &Reporter, deadline_s: f64, f: impl Fn(usize, &T) + Sync) -> (u64, bool) {
+  let done = AtomicU64::new(0);
+  let capped = AtomicBool::new(false);
+  let chunk = 256;
+  for (ci, part) in items.chunks(chunk).enumerate() {
+    if rep.elapsed_s() > deadline_s {
+      capped.store(true, Ordering::Relaxed);
+      break;
+    }
+    part.par_iter().enumerate().for_each(|(i, it)| {
+      if rep.elapsed_s() > deadline_s {
+        capped.store(true, Ordering::Relaxed);
+        return;
+      }
+      f(ci * chunk + i, it);
+      done.fetch_add(1, Ordering::Relaxed);
+    });
+  }
+  (done.load(Ordering::Relaxed), capped.load(Ordering::Relaxed))
+}
+
+/// Wall budget of a sweep in seconds (VERIF_BUDGET_S overrides, for experiments).
+pub fn budget(default_s: f64) -> f64 {
+  std::env::var("VERIF_BUDGET_S").ok().and_then(|s| s.parse().ok()).unwrap_or(default_s)
+}
+
+struct SigLog {
+  count: u64,
+  keep: BTreeMap<FailKey, (String, Value)>,
+}
+
+pub struct FailLog {
+  inner: Mutex<BTreeMap<Option<&'static str>, SigLog>>,
+  keep_n: usize,
+}
+
+impl Default for FailLog {
+  fn default() -> Self {
+    FailLog::new()
+  }
+}
+
+impl FailLog {
+  pub fn new() -> FailLog {
+    FailLog { inner: Mutex::new(BTreeMap::new()), keep_n: 5 }
+  }
+  pub fn add(&self, sig: Option<&'static str>, key: FailKey, what: impl FnOnce() -> String, case: impl FnOnce() -> Value) {
+    let mut g = self.inner.lock();
+    let e = g.entry(sig).or_insert_with(|| SigLog { count: 0, keep: BTreeMap::new() });
+    e.count += 1;
+    let qualifies = e.keep.len() < self.keep_n || e.keep.keys().next_back().map(|k| &key < k).unwrap_or(true);
+    if qualifies {
+      e.keep.insert(key, (what(), case()));
+      while e.keep.len() > self.keep_n {
+        let last = e.keep.keys().next_back().cloned().unwrap();
+        e.keep.remove(&last);
+      }
+    }
+  }
+  pub fn classes(&self) -> Vec<(Option<&'static str>, u64)> {
+    self.inner.lock().iter().map(|(k, v)| (*k, v.count)).collect()
+  }
+  /// Report: per class the minimal witness first (unexplained class first), then the remaining
+  /// kept witnesses, then the bare counts.
+  pub fn flush(&self, rep: &Reporter) {
+    let g = self.inner.lock();
+    // BTreeMap orders None before Some(_)
+    for (sig, log) in g.iter() {
+      if let Some((_, (what, case))) = log.keep.iter().next() {
+        rep.fail(*sig, what, case.clone());
+      }
+    }
+    for (sig, log) in g.iter() {
+      let mut reported = 1u64;
+      for (_, (what, case)) in log.keep.iter().skip(1) {
+        rep.fail(*sig, what, case.clone());
+        reported += 1;
+      }
+      if let Some((_, (what, case))) = log.keep.iter().next() {
+        for _ in reported..log.count {
+          rep.fail(*sig, what, case.clone());
+        }
+      }
+    }
+  }
+}
+
+// ---------------------------------------------------------------------------------------------
+// Worlds
+
+/// text `body`, fast keyword `kw`, fast i64 `pop` / `n`, fast f64 `f`. Everything stored.
+pub fn schema_json() -> Value {
+  json!({"doc_id_field": "_id",
+    "text_fields": [{"name": "body", "analyzer": "default", "stored": true, "indexed": true}],
+    "keyword_fields": [{"name": "kw", "stored": true, "indexed": true, "fast": true}],
+    "numeric_fields": [{"name": "pop", "i64": true, "fast": true, "stored": true},
+                       {"name": "n", "i64": true, "fast": true, "stored": true},
+                       {"name": "f", "i64": false, "fast": true, "stored": true}]})
+}
+
+/// Document shapes over {a,b,c}: term frequencies 1-3, lengths 1-6, `pop` spread so that it is
+/// neither monotone nor anti-monotone in the BM25 score of any term.
+pub fn body_shapes() -> Vec<(&'static str, i64)> {
+  vec![
+    ("a", 1),
+    ("a a a", 9),
+    ("a b", 3),
+    ("b", 2),
+    ("a b b c c c", 5),
+    ("b c", 8),
+    ("c c a a", 4),
+    ("a a b c", 2),
+  ]
+}
+
+pub fn mk_world(shape_idx: &[usize], layout: &[usize]) -> World {
+  let sh = body_shapes();
+  let docs: Vec<Value> = shape_idx
+    .iter()
+    .enumerate()
+    .map(|(i, s)| json!({"_id": id_of(i), "body": sh[*s].0, "pop": sh[*s].1}))
+    .collect();
+  World::new("body+kw+pop+n+f", schema_json(), docs).with_layout(layout.to_vec())
+}
+
+/// [n] and every split of n into two non-empty commits.
+pub fn layouts_1_2(n: usize) -> Vec<Vec<usize>> {
+  let mut out = vec![vec![n]];
+  for k in 1..n {
+    out.push(vec![k, n - k]);
+  }
+  out
+}
+
+/// The C09 world space. `seq_max`: every sequence of shapes up to that length (all 1-2 segment
+/// layouts); `multi`: for these sizes every multiset in ascending and descending shape order.
+pub fn worlds(seq_max: usize, multi: &[usize], multi_all_layouts: bool) -> Vec<World> {
+  let k = body_shapes().len();
+  let idx: Vec<usize> = (0..k).collect();
+  let mut out = Vec::new();
+  for s in sequences(&idx, 1, seq_max) {
+    for lay in layouts_1_2(s.len()) {
+      out.push(mk_world(&s, &lay));
+    }
+  }
+  for &n in multi {
+    if n <= seq_max {
+      continue;
+    }
+    for m in multisets(k, n) {
+      let mut rev = m.clone();
+      rev.reverse();
+      let orders = if rev == m { vec![m.clone()] } else { vec![m.clone(), rev] };
+      for o in orders {
+        let lays = if multi_all_layouts { layouts_1_2(n) } else { vec![vec![n], vec![n / 2, n - n / 2]] };
+        for lay in lays {
+          out.push(mk_world(&o, &lay));
+        }
+      }
+    }
+  }
+  out
+}
+
+// ---------------------------------------------------------------------------------------------
+// Scored query trees
+
+fn term(t: &str) -> Value {
+  json!({"type": "term", "field": "body", "value": t})
+}
+fn term_b(t: &str, boost: f64) -> Value {
+  json!({"type": "term", "field": "body", "value": t, "boost": boost})
+}
+fn qs(q: &str) -> Value {
+  json!({"type": "query_string", "query": q})
+}
+fn pop_ge3() -> Value {
+  json!({"I64Range": {"field": "pop", "min": 3, "max": 1000}})
+}
+
+/// The scored-tree alphabet, simplest first. No term key occurs in two scoring leaves (that is
+/// H9 / C16 territory).
+pub fn scored_trees() -> Vec<Value> {
+  let mut v: Vec<Value> = Vec::new();
+  // 1-3 term query strings
+  for q in ["a", "b", "a b", "b c", "a b c"] {
+    v.push(json!(q));
+  }
+  // boosted terms
+  for b in [2.0, 0.5, 0.0] {
+    v.push(term_b("a", b));
+    v.push(json!({"type": "bool", "should": [term_b("a", b), term("b")]}));
+  }
+  // dis_max
+  for tie in [0.0, 0.4] {
+    v.push(json!({"type": "dis_max", "tie_breaker": tie, "queries": [term("a"), term("b")]}));
+    v.push(json!({"type": "dis_max", "tie_breaker": tie, "queries": [term("a"), qs("b c")]}));
+  }
+  // bool mixes
+  v.push(json!({"type": "bool", "must": [term("a")], "should": [term("b")]}));
+  v.push(json!({"type": "bool", "must": [term("a"), term("b")]}));
+  v.push(json!({"type": "bool", "must": [term("a")], "should": [term("b"), term("c")]}));
+  v.push(json!({"type": "bool", "should": [term_b("a", 2.0), term("b")], "must_not": [term("c")]}));
+  v.push(json!({"type": "bool", "should": [term("a"), term("b"), term("c")], "minimum_should_match": 2}));
+  // function_score
+  for inner in [qs("a"), qs("a b")] {
+    for bm in ["multiply", "sum", "replace", "min"] {
+      v.push(json!({"type": "function_score", "query": inner, "boost_mode": bm,
+        "functions": [{"type": "weight", "weight": 2.0, "filter": pop_ge3()}]}));
+      v.push(json!({"type": "function_score", "query": inner, "boost_mode": bm,
+        "functions": [{"type": "field_value_factor", "field": "pop", "factor": 1.0, "modifier": "reciprocal"}]}));
+    }
+    v.push(json!({"type": "function_score", "query": inner, "boost_mode": "multiply", "max_boost": 2.0,
+      "functions": [{"type": "field_value_factor", "field": "pop", "factor": 1.0}]}));
+    v.push(json!({"type": "function_score", "query": inner, "boost_mode": "multiply", "min_score": 1.5,
+      "functions": [{"type": "weight", "weight": 2.0, "filter": pop_ge3()}]}));
+    v.push(json!({"type": "function_score", "query": inner, "boost_mode": "sum", "score_mode": "sum",
+      "functions": [{"type": "weight", "weight": 2.0, "filter": pop_ge3()},
+                    {"type": "field_value_factor", "field": "pop", "factor": 0.5}]}));
+  }
+  // script_score
+  for inner in [qs("a"), qs("a b")] {
+    for s in ["0 - _score", "pop", "1 / (_score + 1)"] {
+      v.push(json!({"type": "script_score", "query": inner, "script": s}));
+    }
+  }
+  // non-monotone transforms over a down-weighted term (BM25 bound below 1)
+  v.push(json!({"type": "script_score", "query": term_b("a", 0.5), "script": "1 / (_score + 1)"}));
+  v.push(json!({"type": "function_score", "query": term_b("a", 0.5), "boost_mode": "replace",
+    "functions": [{"type": "field_value_factor", "field": "pop", "factor": 1.0, "modifier": "reciprocal"}]}));
+  // rank_feature / constant_score in should
+  v.push(json!({"type": "bool", "must": [term("a")], "should": [{"type": "rank_feature", "field": "pop"}]}));
+  v.push(json!({"type": "bool", "must": [qs("a b")], "should": [{"type": "rank_feature", "field": "pop", "modifier": "reciprocal"}]}));
+  v.push(json!({"type": "bool", "should": [term("a"), {"type": "rank_feature", "field": "pop", "modifier": "sqrt"}]}));
+  v.push(json!({"type": "bool", "must": [term("a")], "should": [{"type": "constant_score", "filter": pop_ge3(), "boost": 2.0}]}));
+  v.push(json!({"type": "bool", "should": [term("b"), {"type": "constant_score", "filter": pop_ge3()}]}));
+  v
+}
+
+/// Does the tree contain a node whose score is not a sum/max of BM25 leaves?
+pub fn has_custom_scoring(q: &Value) -> bool {
+  match q {
+    Value::Object(o) => {
+      if let Some(t) = o.get("type").and_then(|t| t.as_str()) {
+        if matches!(t, "function_score" | "script_score" | "rank_feature" | "constant_score") {
+          return true;
+        }
+      }
+      o.values().any(has_custom_scoring)
+    }
+    Value::Array(a) => a.iter().any(has_custom_scoring),
+    _ => false,
+  }
+}
+
+// ---------------------------------------------------------------------------------------------
+// Independent oracle: segment statistics, BM25, score tree
+
+#[derive(Debug, Clone)]
+pub struct DocInfo {
+  pub id: String,
+  pub tf: BTreeMap<String, f64>,
+  pub len: f64,
+  pub json: Value,
+}
+
+impl DocInfo {
+  pub fn num(&self, field: &str) -> Option<f64> {
+    match &self.json[field] {
+      Value::Number(n) => n.as_f64(),
+      Value::Array(a) => a.first().and_then(|x| x.as_f64()),
+      _ => None,
+    }
+  }
+}
+
+#[derive(Debug, Clone)]
+pub struct SegInfo {
+  pub docs: Vec<DocInfo>,
+  pub n: f64,
+  pub avgdl: f64,
+  pub df: BTreeMap<String, f64>,
+}
+
+/// Per-segment statistics recomputed from the world's JSON (worlds without deletions only).
+#[derive(Debug, Clone)]
+pub struct WorldInfo {
+  pub segs: Vec<SegInfo>,
+  pub k1: f64,
+  pub b: f64,
+}
+
+impl WorldInfo {
+  pub fn new(world: &World) -> WorldInfo {
+    assert!(world.deleted.is_empty() && !world.compact, "WorldInfo: plain worlds only");
+    let sch = world.schema();
+    let an = sch.build_analyzers().expect("analyzers");
+    let body = an.index_analyzer("body").expect("body analyzer");
+    let mut segs = Vec::new();
+    let mut i = 0;
+    for &cnt in &world.layout {
+      // doc ordinal inside a commit follows the id order (pending documents are kept in a BTreeMap)
+      let mut chunk: Vec<&Value> = world.docs[i..i + cnt].iter().collect();
+      chunk.sort_by(|a, b| a["_id"].as_str().cmp(&b["_id"].as_str()));
+      i += cnt;
+      let mut docs = Vec::new();
+      let mut df: BTreeMap<String, f64> = BTreeMap::new();
+      let mut total = 0.0;
+      for d in chunk {
+        let mut tf: BTreeMap<String, f64> = BTreeMap::new();
+        let mut len = 0.0;
+        let texts: Vec<String> = match &d["body"] {
+          Value::String(s) => vec![s.clone()],
+          Value::Array(a) => a.iter().filter_map(|x| x.as_str().map(|s| s.to_string())).collect(),
+          _ => vec![],
+        };
+        for t in texts {
+          for tok in body.analyze(&t) {
+            *tf.entry(tok.text).or_insert(0.0) += 1.0;
+            len += 1.0;
+          }
+        }
+        for t in tf.keys() {
+          *df.entry(t.clone()).or_insert(0.0) += 1.0;
+        }
+        total += len;
+        docs.push(DocInfo { id: d["_id"].as_str().unwrap().to_string(), tf, len, json: d.clone() });
+      }
+      let n = docs.len() as f64;
+      segs.push(SegInfo { docs, n, avgdl: if n > 0.0 { total / n } else { 0.0 }, df });
+    }
+    WorldInfo { segs, k1: 1.2, b: 0.75 }
+  }
+
+  pub fn locate(&self, id: &str) -> Option<(usize, usize)> {
+    for (s, seg) in self.segs.iter().enumerate() {
+      if let Some(o) = seg.docs.iter().position(|d| d.id == id) {
+        return Some((s, o));
+      }
+    }
+    None
+  }
+
+  /// BM25 exactly as searchlite-core/src/query/bm25.rs defines it (pinned), in f64.
+  pub fn bm25(&self, seg: usize, ord: usize, t: &str) -> f64 {
+    let s = &self.segs[seg];
+    let d = &s.docs[ord];
+    let tf = d.tf.get(t).copied().unwrap_or(0.0);
+    if tf == 0.0 {
+      return 0.0;
+    }
+    let df = s.df.get(t).copied().unwrap_or(0.0);
+    let idf = ((s.n - df + 0.5) / (df + 0.5)).ln().max(0.0) + 1.0;
+    let norm = if s.avgdl > 0.0 { d.len / s.avgdl } else { 1.0 };
+    let denom = tf + self.k1 * (1.0 - self.b + self.b * norm);
+    idf * (tf * (self.k1 + 1.0)) / denom.max(1e-6)
+  }
+}
+
+/// What the oracle can say about one clause's score for one document.
+#[derive(Debug, Clone, PartialEq)]
+pub enum Sc {
+  /// the document does not match the clause (contributes nothing)
+  NoMatch,
+  /// matches, but the clause carries no score of its own (match_all, phrase)
+  NonScoring,
+  /// admissible values: more than one where the documentation admits several readings
+  Adm(Vec<f64>),
+  /// documentation is silent for this input: not judged
+  Unknown,
+}
+
+fn dedup(mut v: Vec<f64>) -> Vec<f64> {
+  v.sort_by(|a, b| a.total_cmp(b));
+  v.dedup_by(|a, b| (*a - *b).abs() <= 1e-9 * a.abs().max(b.abs()).max(1e-9));
+  v
+}
+
+fn filter_passes(f: &Value, d: &DocInfo) -> Option<bool> {
+  let o = f.as_object()?;
+  let (k, v) = o.iter().next()?;
+  match k.as_str() {
+    "I64Range" => {
+      let field = v["field"].as_str()?;
+      let (mn, mx) = (v["min"].as_i64()?, v["max"].as_i64()?);
+      let vals: Vec<i64> = match &d.json[field] {
+        Value::Number(n) => vec![n.as_i64()?],
+        Value::Array(a) => a.iter().filter_map(|x| x.as_i64()).collect(),
+        _ => vec![],
+      };
+      Some(vals.iter().any(|x| *x >= mn && *x <= mx))
+    }
+    "KeywordEq" => {
+      let field = v["field"].as_str()?;
+      let want = v["value"].as_str()?.to_ascii_lowercase();
+      let vals: Vec<String> = match &d.json[field] {
+        Value::String(s) => vec![s.to_ascii_lowercase()],
+        Value::Array(a) => a.iter().filter_map(|x| x.as_str().map(|s| s.to_ascii_lowercase())).collect(),
+        _ => vec![],
+      };
+      Some(vals.contains(&want))
+    }
+    _ => None,
+  }
+}
+
+// --- tiny arithmetic script evaluator (numbers, identifiers, + - * /, unary minus, parentheses)
+struct ScriptP<'a> {
+  toks: Vec<String>,
+  pos: usize,
+  vars: &'a dyn Fn(&str) -> Option<f64>,
+}
+
+impl ScriptP<'_> {
+  fn lex(s: &str) -> Vec<String> {
+    let mut out = Vec::new();
+    let cs: Vec<char> = s.chars().collect();
+    let mut i = 0;
+    while i < cs.len() {
+      let c = cs[i];
+      if c.is_whitespace() {
+        i += 1;
+      } else if c.is_ascii_digit() || c == '.' {
+        let st = i;
+        while i < cs.len() && (cs[i].is_ascii_digit() || cs[i] == '.') {
+          i += 1;
+        }
+        out.push(cs[st..i].iter().collect());
+      } else if c.is_alphabetic() || c == '_' {
+        let st = i;
+        while i < cs.len() && (cs[i].is_alphanumeric() || cs[i] == '_') {
+          i += 1;
+        }
+        out.push(cs[st..i].iter().collect());
+      } else {
+        out.push(c.to_string());
+        i += 1;
+      }
+    }
+    out
+  }
+  fn peek(&self) -> Option<&str> {
+    self.toks.get(self.pos).map(|s| s.as_str())
+  }
+  fn expr(&mut self) -> Option<f64> {
+    let mut v = self.term()?;
+    while let Some(op) = self.peek() {
+      if op == "+" || op == "-" {
+        let add = op == "+";
+        self.pos += 1;
+        let r = self.term()?;
+        v = if add { v + r } else { v - r };
+      } else {
+        break;
+      }
+    }
+    Some(v)
+  }
+  fn term(&mut self) -> Option<f64> {
+    let mut v = self.unary()?;
+    while let Some(op) = self.peek() {
+      if op == "*" || op == "/" {
+        let mul = op == "*";
+        self.pos += 1;
+        let r = self.unary()?;
+        if !mul && r == 0.0 {
+          return None;
+        }
+        v = if mul { v * r } else { v / r };
+      } else {
+        break;
+      }
+    }
+    Some(v)
+  }
+  fn unary(&mut self) -> Option<f64> {
+    match self.peek()? {
+      "-" => {
+        self.pos += 1;
+        Some(-self.unary()?)
+      }
+      "(" => {
+        self.pos += 1;
+        let v = self.expr()?;
+        if self.peek()? != ")" {
+          return None;
+        }
+        self.pos += 1;
+        Some(v)
+      }
+      t => {
+        let t = t.to_string();
+        self.pos += 1;
+        if let Ok(n) = t.parse::<f64>() {
+          Some(n)
+        } else {
+          (self.vars)(&t)
+        }
+      }
+    }
+  }
+}
+
+pub fn eval_script(script: &str, vars: &dyn Fn(&str) -> Option<f64>) -> Option<f64> {
+  let mut p = ScriptP { toks: ScriptP::lex(script), pos: 0, vars };
+  let v = p.expr()?;
+  if p.pos != p.toks.len() || !v.is_finite() {
+    return None;
+  }
+  Some(v)
+}
+
+fn boost_of(o: &Value) -> f64 {
+  o.get("boost").and_then(|b| b.as_f64()).unwrap_or(1.0)
+}
+
+fn apply_modifier(v: f64, m: &str) -> Option<f64> {
+  Some(match m {
+    "none" => v,
+    "reciprocal" => {
+      if v == 0.0 {
+        return None; // the documentation does not say what 1/0 is
+      } else {
+        1.0 / v
+      }
+    }
+    "sqrt" => {
+      if v < 0.0 {
+        return None;
+      } else {
+        v.sqrt()
+      }
+    }
+    "log1p" => {
+      if v <= -1.0 {
+        return None;
+      } else {
+        v.ln_1p()
+      }
+    }
+    "log" => {
+      if v <= 0.0 {
+        return None;
+      } else {
+        v.ln()
+      }
+    }
+    _ => return None,
+  })
+}
+
+fn boost_mode(base: f64, f: f64, mode: &str) -> Option<f64> {
+  Some(match mode {
+    "multiply" => base * f,
+    "sum" => base + f,
+    "replace" => f,
+    "max" => base.max(f),
+    "min" => base.min(f),
+    _ => return None,
+  })
+}
+
+/// Score-tree oracle: the score the documentation assigns to document (seg, ord) for `q`, with
+/// incoming boost `boost` (boosts multiply down to the term leaves).
+pub fn oracle_score(info: &WorldInfo, seg: usize, ord: usize, q: &Value, boost: f64) -> Sc {
+  let d = &info.segs[seg].docs[ord];
+  let terms_of = |s: &str| -> Option<Vec<String>> {
+    // bare lower-case words only (operators, phrases and field scopes are outside this oracle)
+    let ws: Vec<String> = s.split_whitespace().map(|w| w.to_string()).collect();
+    if ws.is_empty() || ws.iter().any(|w| !w.chars().all(|c| c.is_ascii_lowercase())) {
+      return None;
+    }
+    Some(ws)
+  };
+  let leaf = |ts: &[String], b: f64| -> Sc {
+    let present: Vec<&String> = ts.iter().filter(|t| d.tf.contains_key(*t)).collect();
+    if present.is_empty() {
+      return Sc::NoMatch;
+    }
+    Sc::Adm(vec![present.iter().map(|t| info.bm25(seg, ord, t) * b).sum()])
+  };
+  if let Value::String(s) = q {
+    return match terms_of(s) {
+      Some(ts) => leaf(&ts, boost),
+      None => Sc::Unknown,
+    };
+  }
+  let Some(ty) = q.get("type").and_then(|t| t.as_str()) else { return Sc::Unknown };
+  match ty {
+    "match_all" => Sc::NonScoring,
+    "query_string" => {
+      if q.get("fields").map(|f| !f.is_null()).unwrap_or(false) {
+        return Sc::Unknown;
+      }
+      match q["query"].as_str().and_then(terms_of) {
+        Some(ts) => leaf(&ts, boost * boost_of(q)),
+        None => Sc::Unknown,
+      }
+    }
+    "term" => {
+      if q["field"].as_str() != Some("body") {
+        return Sc::Unknown;
+      }
+      match q["value"].as_str().and_then(terms_of) {
+        Some(ts) if ts.len() == 1 => leaf(&ts, boost * boost_of(q)),
+        _ => Sc::Unknown,
+      }
+    }
+    "phrase" => {
+      // matching of phrases is C07's business; here: consecutive tokens in the single body text
+      let Some(ts) = q["terms"].as_array() else { return Sc::Unknown };
+      let ts: Vec<&str> = ts.iter().filter_map(|x| x.as_str()).collect();
+      if q.get("slop").map(|s| !s.is_null() && s.as_u64() != Some(0)).unwrap_or(false) {
+        return Sc::Unknown;
+      }
+      let Some(body) = d.json["body"].as_str() else { return Sc::Unknown };
+      let toks: Vec<&str> = body.split_whitespace().collect();
+      if ts.is_empty() || toks.len() < ts.len() {
+        return Sc::NoMatch;
+      }
+      if toks.windows(ts.len()).any(|w| w == &ts[..]) {
+        Sc::NonScoring
+      } else {
+        Sc::NoMatch
+      }
+    }
+    "bool" => {
+      if boost_of(q) != 1.0 {
+        return Sc::Unknown;
+      }
+      let list = |k: &str| -> Vec<Value> { q.get(k).and_then(|x| x.as_array()).cloned().unwrap_or_default() };
+      let (must, should, must_not, filter) = (list("must"), list("should"), list("must_not"), list("filter"));
+      let mut parts: Vec<Vec<f64>> = Vec::new();
+      let mut unknown = false;
+      for c in &must {
+        match oracle_score(info, seg, ord, c, boost) {
+          Sc::NoMatch => return Sc::NoMatch,
+          Sc::NonScoring => {}
+          Sc::Adm(v) => parts.push(v),
+          Sc::Unknown => unknown = true,
+        }
+      }
+      for c in &must_not {
+        match oracle_score(info, seg, ord, c, boost) {
+          Sc::NoMatch => {}
+          Sc::Unknown => unknown = true,
+          _ => return Sc::NoMatch,
+        }
+      }
+      for f in &filter {
+        match filter_passes(f, d) {
+          Some(true) => {}
+          Some(false) => return Sc::NoMatch,
+          None => unknown = true,
+        }
+      }
+      let mut matched_should = 0usize;
+      for c in &should {
+        match oracle_score(info, seg, ord, c, boost) {
+          Sc::NoMatch => {}
+          Sc::NonScoring => matched_should += 1,
+          Sc::Adm(v) => {
+            matched_should += 1;
+            parts.push(v);
+          }
+          Sc::Unknown => unknown = true,
+        }
+      }
+      if unknown {
+        return Sc::Unknown;
+      }
+      let msm = match q.get("minimum_should_match") {
+        Some(Value::Number(n)) => n.as_u64().unwrap_or(0) as usize,
+        Some(Value::Null) | None => {
+          if must.is_empty() && filter.is_empty() {
+            1
+          } else {
+            0
+          }
+        }
+        _ => return Sc::Unknown,
+      };
+      if matched_should < msm.min(should.len()) {
+        return Sc::NoMatch;
+      }
+      if parts.is_empty() {
+        return Sc::Unknown; // a bool without any scoring clause: the documentation names no score
+      }
+      let mut acc = vec![0.0];
+      for p in parts {
+        let mut next = Vec::new();
+        for a in &acc {
+          for x in &p {
+            next.push(a + x);
+          }
+        }
+        acc = dedup(next);
+      }
+      Sc::Adm(acc)
+    }
+    "dis_max" => {
+      if boost_of(q) != 1.0 {
+        return Sc::Unknown;
+      }
+      let tie = q.get("tie_breaker").and_then(|t| t.as_f64()).unwrap_or(0.0);
+      let Some(children) = q["queries"].as_array() else { return Sc::Unknown };
+      let mut parts: Vec<Vec<f64>> = Vec::new();
+      let mut matched = false;
+      for c in children {
+        match oracle_score(info, seg, ord, c, boost) {
+          Sc::NoMatch => {}
+          Sc::NonScoring => matched = true,
+          Sc::Adm(v) => {
+            matched = true;
+            parts.push(v);
+          }
+          Sc::Unknown => return Sc::Unknown,
+        }
+      }
+      if !matched {
+        return Sc::NoMatch;
+      }
+      if parts.is_empty() {
+        return Sc::Unknown;
+      }
+      // all combinations of admissible child values
+      let mut combos: Vec<Vec<f64>> = vec![vec![]];
+      for p in &parts {
+        let mut next = Vec::new();
+        for c in &combos {
+          for x in p {
+            let mut c2 = c.clone();
+            c2.push(*x);
+            next.push(c2);
+          }
+        }
+        combos = next;
+      }
+      Sc::Adm(dedup(
+        combos
+          .iter()
+          .map(|c| {
+            let mx = c.iter().cloned().fold(f64::NEG_INFINITY, f64::max);
+            let sum: f64 = c.iter().sum();
+            mx + tie * (sum - mx)
+          })
+          .collect(),
+      ))
+    }
+    "constant_score" => match filter_passes(&q["filter"], d) {
+      Some(true) => Sc::Adm(vec![boost * boost_of(q)]),
+      Some(false) => Sc::NoMatch,
+      None => Sc::Unknown,
+    },
+    "rank_feature" => {
+      let Some(field) = q["field"].as_str() else { return Sc::Unknown };
+      let Some(v) = d.num(field) else { return Sc::Unknown };
+      let m = q.get("modifier").and_then(|m| m.as_str()).unwrap_or("none");
+      match apply_modifier(v, m) {
+        Some(x) => Sc::Adm(vec![x * boost * boost_of(q)]),
+        None => Sc::Unknown,
+      }
+    }
+    "function_score" => {
+      if boost_of(q) != 1.0 || boost != 1.0 {
+        return Sc::Unknown;
+      }
+      let bases = match oracle_score(info, seg, ord, &q["query"], boost) {
+        Sc::NoMatch => return Sc::NoMatch,
+        Sc::Adm(v) => v,
+        // base score of a non-scoring query (match_all) is not documented
+        Sc::NonScoring | Sc::Unknown => return Sc::Unknown,
+      };
+      // a zero base score (zero boosts) combined with functions: documentation is silent
+      if bases.iter().any(|b| b.abs() <= 1e-6) {
+        return Sc::Unknown;
+      }
+      let Some(funcs) = q["functions"].as_array() else { return Sc::Unknown };
+      let mut vals: Vec<f64> = Vec::new();
+      for f in funcs {
+        if let Some(flt) = f.get("filter").filter(|x| !x.is_null()) {
+          match filter_passes(flt, d) {
+            Some(true) => {}
+            Some(false) => continue,
+            None => return Sc::Unknown,
+          }
+        }
+        match f["type"].as_str() {
+          Some("weight") => match f["weight"].as_f64() {
+            Some(w) => vals.push(w),
+            None => return Sc::Unknown,
+          },
+          Some("field_value_factor") => {
+            let Some(field) = f["field"].as_str() else { return Sc::Unknown };
+            let Some(raw) = d.num(field) else { return Sc::Unknown };
+            let factor = f.get("factor").and_then(|x| x.as_f64()).unwrap_or(1.0);
+            let m = f.get("modifier").and_then(|m| m.as_str()).unwrap_or("none");
+            match apply_modifier(raw * factor, m) {
+              Some(x) => vals.push(x),
+              None => return Sc::Unknown,
+            }
+          }
+          _ => return Sc::Unknown,
+        }
+      }
+      let Some(bm) = q.get("boost_mode").and_then(|m| m.as_str()) else { return Sc::Unknown };
+      let max_boost = q.get("max_boost").and_then(|m| m.as_f64());
+      let mut out = Vec::new();
+      for base in &bases {
+        if vals.is_empty() {
+          // no function applies: "unchanged base" and "neutral function value 1" are both defensible
+          out.push(*base);
+          match boost_mode(*base, 1.0, bm) {
+            Some(x) => out.push(x),
+            None => return Sc::Unknown,
+          }
+          continue;
+        }
+        let f = if vals.len() == 1 {
+          vals[0]
+        } else {
+          match q.get("score_mode").and_then(|m| m.as_str()) {
+            Some("sum") => vals.iter().sum(),
+            Some("multiply") => vals.iter().product(),
+            Some("max") => vals.iter().cloned().fold(f64::NEG_INFINITY, f64::max),
+            Some("min") => vals.iter().cloned().fold(f64::INFINITY, f64::min),
+            Some("avg") => vals.iter().sum::<f64>() / vals.len() as f64,
+            _ => return Sc::Unknown, // default score_mode is not documented
+          }
+        };
+        let Some(combined) = boost_mode(*base, f, bm) else { return Sc::Unknown };
+        match max_boost {
+          None => out.push(combined),
+          Some(mb) => {
+            // cap on the combined score, or cap on the function value: both readings admitted
+            out.push(combined.min(mb));
+            if let Some(x) = boost_mode(*base, f.min(mb), bm) {
+              out.push(x);
+            }
+          }
+        }
+      }
+      Sc::Adm(dedup(out))
+    }
+    "script_score" => {
+      if boost_of(q) != 1.0 || boost != 1.0 {
+        return Sc::Unknown;
+      }
+      let bases = match oracle_score(info, seg, ord, &q["query"], boost) {
+        Sc::NoMatch => return Sc::NoMatch,
+        Sc::Adm(v) => v,
+        Sc::NonScoring | Sc::Unknown => return Sc::Unknown,
+      };
+      let Some(script) = q["script"].as_str() else { return Sc::Unknown };
+      let mut out = Vec::new();
+      for base in bases {
+        let vars = |name: &str| -> Option<f64> {
+          if name == "_score" {
+            Some(base)
+          } else {
+            d.num(name)
+          }
+        };
+        match eval_script(script, &vars) {
+          Some(v) => out.push(v),
+          None => return Sc::Unknown,
+        }
+      }
+      Sc::Adm(dedup(out))
+    }
+    _ => Sc::Unknown,
+  }
+}
+
+/// Sum of the plain BM25 contributions (x boosts) of every scoring term leaf of `q` present in the
+/// document: the quantity the pruning bounds are upper bounds of.
+pub fn raw_term_sum(info: &WorldInfo, seg: usize, ord: usize, q: &Value, boost: f64, scoring: bool) -> f64 {
+  let d = &info.segs[seg].docs[ord];
+  let words = |s: &str, b: f64| -> f64 {
+    s.split_whitespace().filter(|t| d.tf.contains_key(*t)).map(|t| info.bm25(seg, ord, t) * b).sum()
+  };
+  match q {
+    Value::String(s) => {
+      if scoring {
+        words(s, boost)
+      } else {
+        0.0
+      }
+    }
+    Value::Object(o) => {
+      let b = boost * boost_of(q);
+      match o.get("type").and_then(|t| t.as_str()) {
+        Some("query_string") if scoring => words(q["query"].as_str().unwrap_or(""), b),
+        Some("term") if scoring => words(q["value"].as_str().unwrap_or(""), b),
+        Some("bool") => {
+          let mut s = 0.0;
+          for k in ["must", "should"] {
+            for c in q.get(k).and_then(|x| x.as_array()).cloned().unwrap_or_default() {
+              s += raw_term_sum(info, seg, ord, &c, b, scoring);
+            }
+          }
+          s
+        }
+        Some("dis_max") => q["queries"].as_array().map(|a| a.iter().map(|c| raw_term_sum(info, seg, ord, c, b, scoring)).sum()).unwrap_or(0.0),
+        Some("function_score") | Some("script_score") => raw_term_sum(info, seg, ord, &q["query"], boost, scoring),
+        _ => 0.0,
+      }
+    }
+    _ => 0.0,
+  }
+}
+
+// ---------------------------------------------------------------------------------------------
+// Ranking comparison
+
+pub const TOL: f32 = 1e-5;
+
+/// `got` must equal `want` (ids in order, scores within TOL relative); where it does not, fall
+/// back to near-tie classes: position i of `got` must carry (within TOL) the score of position i of
+/// the full exhaustive ranking `full`, its id must be one of the documents holding that score in
+/// `full`, and no id may repeat. Returns Ok(true) when identical, Ok(false) when equal up to ties.
+pub fn same_ranking(got: &[(String, f32)], want: &[(String, f32)], full: &[(String, f32)]) -> Result<bool, String> {
+  if got.len() == want.len() && got.iter().zip(want).all(|(a, b)| a.0 == b.0 && approx(a.1, b.1, TOL)) {
+    return Ok(true);
+  }
+  if got.len() != want.len() {
+    return Err(format!("{} hits instead of {}", got.len(), want.len()));
+  }
+  let mut seen = HashSet::new();
+  for (i, (id, sc)) in got.iter().enumerate() {
+    if !seen.insert(id.clone()) {
+      return Err(format!("document {id} returned twice"));
+    }
+    let Some(fs) = full.iter().find(|f| &f.0 == id) else {
+      return Err(format!("document {id} is not a match of the exhaustive run"));
+    };
+    if !approx(fs.1, *sc, TOL) {
+      return Err(format!("document {id} scored {sc} but {} in the exhaustive run", fs.1));
+    }
+    if i >= full.len() || !approx(full[i].1, *sc, TOL) {
+      return Err(format!(
+        "rank {} holds {id} (score {sc}) but the exhaustive ranking has {} (score {}) there",
+        i + 1,
+        full.get(i).map(|f| f.0.as_str()).unwrap_or("-"),
+        full.get(i).map(|f| f.1).unwrap_or(f32::NAN)
+      ));
+    }
+  }
+  Ok(false)
+}
+
+// ---------------------------------------------------------------------------------------------
+// The check
+
+#[derive(Debug, Clone)]
+pub struct Case {
+  pub query: Value,
+  pub limit: usize,
+  pub exec: String,
+  pub block: Option<usize>,
+}
+
+impl Case {
+  fn req(&self, exec: &str, limit: usize) -> Value {
+    let mut r = json!({"query": self.query, "limit": limit, "execution": exec});
+    if exec == "bmw" {
+      if let Some(b) = self.block {
+        r["bmw_block_size"] = json!(b);
+      }
+    }
+    r
+  }
+  fn to_json(&self, world: &World) -> Value {
+    json!({"engine": "inputmc-prune", "world": world.to_json(), "query": self.query, "limit": self.limit, "execution": self.exec, "bmw_block_size": self.block})
+  }
+}
+
+/// Terms (field `body`) of the scoring leaves of `q` (everything except `must_not` subtrees).
+pub fn scoring_terms(q: &Value, out: &mut BTreeSet<String>) {
+  match q {
+    Value::String(s) => out.extend(s.split_whitespace().map(|w| w.to_string())),
+    Value::Object(o) => match o.get("type").and_then(|t| t.as_str()) {
+      Some("query_string") => out.extend(q["query"].as_str().unwrap_or("").split_whitespace().map(|w| w.to_string())),
+      Some("term") => out.extend(q["value"].as_str().map(|w| w.to_string())),
+      Some("bool") => {
+        for k in ["must", "should"] {
+          for c in q.get(k).and_then(|x| x.as_array()).cloned().unwrap_or_default() {
+            scoring_terms(&c, out);
+          }
+        }
+      }
+      Some("dis_max") => {
+        for c in q["queries"].as_array().cloned().unwrap_or_default() {
+          scoring_terms(&c, out);
+        }
+      }
+      Some("function_score") | Some("script_score") => scoring_terms(&q["query"], out),
+      _ => {}
+    },
+    _ => {}
+  }
+}
+
+/// Failure classifier. Preconditions shared by both known defects: every hit the pruned run
+/// returned is a true match carrying its true score, in descending order without repeats, so only
+/// the *selection* is wrong. Then every document of the true top-k that the pruned run lost must be
+/// explained:
+///  * H8 (`SIG_H8`): the tree has a custom-scoring node and the lost document's final score is
+///    strictly above the sum of its BM25 term contributions — the only quantity the WAND bounds
+///    limit (searchlite-core/src/query/wand.rs wand_loop compares BM25 upper bounds with a heap
+///    threshold made of adjusted scores).
+///  * block bound (`SIG_BMW`): execution is bmw, the lost document is kept by the `wand` run of the
+///    same request (global bounds are fine), and for one of its scoring terms the document sits in a
+///    later posting block whose max-tf bound exceeds the bound of an earlier block of that term:
+///    wand_loop uses the *current* block's bound for everything that follows (it even stops the
+///    whole loop when the current blocks cannot reach the threshold).
+/// A lost document explained by neither keeps the failure unexplained (signature None).
+fn classify(reader: &IndexReader, info: &WorldInfo, c: &Case, got: &[(String, f32)], want: &[(String, f32)], full: &[(String, f32)]) -> Option<&'static str> {
+  if got.len() != want.len() {
+    return None;
+  }
+  let mut seen = HashSet::new();
+  for (i, (id, sc)) in got.iter().enumerate() {
+    if !seen.insert(id) {
+      return None;
+    }
+    match full.iter().find(|f| &f.0 == id) {
+      Some(f) if approx(f.1, *sc, TOL) => {}
+      _ => return None,
+    }
+    if i > 0 && got[i - 1].1 < *sc && !approx(got[i - 1].1, *sc, TOL) {
+      return None;
+    }
+  }
+  let lost: Vec<&(String, f32)> = want.iter().filter(|w| !got.iter().any(|g| g.0 == w.0)).collect();
+  if lost.is_empty() {
+    return None;
+  }
+  let custom = has_custom_scoring(&c.query);
+  let mut terms = BTreeSet::new();
+  scoring_terms(&c.query, &mut terms);
+  let mut wand_run: Option<Vec<(String, f32)>> = None;
+  let mut any_block = false;
+  for (id, fin) in lost {
+    let (s, o) = info.locate(id)?;
+    let raw = raw_term_sum(info, s, o, &c.query, 1.0, true);
+    if custom && (*fin as f64) > raw * (1.0 + 1e-5) + 1e-9 {
+      continue; // H8-type loss
+    }
+    if c.exec != "bmw" {
+      return None;
+    }
+    let bs = c.block.unwrap_or(128).max(1);
+    if wand_run.is_none() {
+      wand_run = Some(ranked(reader, c.req("wand", c.limit)).ok()?);
+    }
+    if !wand_run.as_ref().unwrap().iter().any(|g| &g.0 == id) {
+      return None;
+    }
+    let seg = &info.segs[s];
+    let mut explained = false;
+    for t in &terms {
+      // posting list of t in this segment, in doc order
+      let plist: Vec<(usize, f64)> = seg.docs.iter().enumerate().filter_map(|(i, d)| d.tf.get(t).map(|tf| (i, *tf))).collect();
+      let Some(pos) = plist.iter().position(|p| p.0 == o) else { continue };
+      let blk = pos / bs;
+      let bmax = |b: usize| plist[b * bs..((b + 1) * bs).min(plist.len())].iter().map(|p| p.1).fold(0.0, f64::max);
+      let mine = bmax(blk);
+      if (0..blk).any(|b| bmax(b) < mine) {
+        explained = true;
+        break;
+      }
+    }
+    if !explained {
+      return None;
+    }
+    any_block = true;
+  }
+  Some(if any_block { SIG_BMW } else { SIG_H8 })
+}
+
+pub enum Verdict {
+  Same,
+  TiePermuted,
+  Fail(Option<&'static str>, String),
+}
+
+fn ranked(reader: &IndexReader, r: Value) -> Result<Vec<(String, f32)>, String> {
+  search_caught(reader, &req(r)).map(|res| id_scores(&res))
+}
+
+fn check_case(reader: &IndexReader, info: &WorldInfo, c: &Case, want: &[(String, f32)], full: &[(String, f32)]) -> Verdict {
+  let got = match ranked(reader, c.req(&c.exec, c.limit)) {
+    Ok(g) => g,
+    Err(e) => return Verdict::Fail(None, format!("{} run failed although bm25 succeeded: {e}", c.exec)),
+  };
+  match same_ranking(&got, want, full) {
+    Ok(true) => Verdict::Same,
+    Ok(false) => Verdict::TiePermuted,
+    Err(why) => {
+      let sig = classify(reader, info, c, &got, want, full);
+      Verdict::Fail(sig, format!("{} returned {:?}, bm25 returned {:?}: {}", c.exec, got, want, why))
+    }
+  }
+}
+
+fn full_ranking(reader: &IndexReader, q: &Value) -> Result<Vec<(String, f32)>, String> {
+  ranked(reader, json!({"query": q, "limit": 100, "execution": "bm25"}))
+}
+
+pub const BLOCKS: [usize; 5] = [1, 2, 3, 128, 300];
+
+pub fn run(ctx: &Ctx) -> i32 {
+  let mut rep = Reporter::new("C09", ctx.tier, "exploration");
+  let quick = ctx.tier.is_quick();
+  if let Some(path) = &ctx.replay {
+    rep.set_replaying(true);
+    let v: Value = serde_json::from_slice(&std::fs::read(path).expect("replay file")).expect("json");
+    let cs = &v["case"];
+    let world = World::from_json(&cs["world"]);
+    let c = Case {
+      query: cs["query"].clone(),
+      limit: cs["limit"].as_u64().unwrap_or(1) as usize,
+      exec: cs["execution"].as_str().unwrap_or("wand").to_string(),
+      block: cs["bmw_block_size"].as_u64().map(|b| b as usize),
+    };
+    let run1 = || {
+      let idx = world.build();
+      let reader = idx.reader().expect("reader");
+      let info = WorldInfo::new(&world);
+      let full = match full_ranking(&reader, &c.query) {
+        Ok(f) => f,
+        Err(e) => return Some(format!("bm25 run failed: {e}")),
+      };
+      let want = match ranked(&reader, c.req("bm25", c.limit)) {
+        Ok(w) => w,
+        Err(e) => return Some(format!("bm25 run failed: {e}")),
+      };
+      match check_case(&reader, &info, &c, &want, &full) {
+        Verdict::Fail(sig, what) => Some(format!("[{}] {}", sig.unwrap_or("-"), what)),
+        _ => None,
+      }
+    };
+    let (a, b) = (run1(), run1());
+    if a.is_some() != b.is_some() {
+      vcore::ev::machinery_failure("NONDETERMINISM on replay");
+    }
+    return match a {
+      Some(w) => {
+        println!("VIOLATION property=C09 replay={path}\n  what: {w}");
+        1
+      }
+      None => {
+        println!("replay: no violation");
+        0
+      }
+    };
+  }
+
+  let ws = if quick { worlds(3, &[4], false) } else { worlds(5, &[6], true) };
+  let trees = scored_trees();
+  // quick tier reduction: limits 1..3 and block sizes {1,2,128}; thorough runs the full alphabet
+  let max_limit: usize = if quick { 3 } else { 4 };
+  let blocks: &[usize] = if quick { &[1, 2, 128] } else { &BLOCKS };
+  let deadline = budget(if quick { 30.0 } else { 840.0 });
+  let evals = AtomicU64::new(0);
+  let nontrivial = AtomicU64::new(0);
+  let pruning_seen = AtomicU64::new(0);
+  let tie_perm = AtomicU64::new(0);
+  let worlds_done = AtomicU64::new(0);
+  let timed_out = AtomicBool::new(false);
+  let outcomes: Mutex<BTreeSet<String>> = Mutex::new(BTreeSet::new());
+  let log = FailLog::new();
+  let failing_trees: Mutex<BTreeMap<String, BTreeSet<usize>>> = Mutex::new(BTreeMap::new());
+  let (done, capped) = par_sweep(&ws, &rep, deadline, |wi, world| {
+    let idx = world.build();
+    let reader = idx.reader().expect("reader");
+    let info = WorldInfo::new(world);
+    let n = world.docs.len();
+    let mut local_out: BTreeSet<String> = BTreeSet::new();
+    for (qi, q) in trees.iter().enumerate() {
+      let full = match full_ranking(&reader, q) {
+        Ok(f) => f,
+        Err(e) => {
+          let c = Case { query: q.clone(), limit: 100, exec: "bm25".into(), block: None };
+          log.add(None, vec![wi as u64, qi as u64], || format!("{} q={}: exhaustive run failed: {e}", world.describe(), q), || c.to_json(world));
+          continue;
+        }
+      };
+      for limit in 1..=max_limit.min(n) {
+        // pruning can only act once the per-segment heap (limit+1 entries) is full
+        let live = full.len() > limit;
+        if live {
+          nontrivial.fetch_add(1, Ordering::Relaxed);
+        }
+        let mut cases = vec![Case { query: q.clone(), limit, exec: "wand".into(), block: None }];
+        for &b in blocks {
+          cases.push(Case { query: q.clone(), limit, exec: "bmw".into(), block: Some(b) });
+        }
+        let want = match ranked(&reader, cases[0].req("bm25", limit)) {
+          Ok(w) => w,
+          Err(e) => {
+            log.add(None, vec![wi as u64, qi as u64, limit as u64], || format!("{} q={} limit={}: bm25 run failed: {e}", world.describe(), q, limit), || cases[0].to_json(world));
+            continue;
+          }
+        };
+        for (ci, c) in cases.iter().enumerate() {
+          evals.fetch_add(1, Ordering::Relaxed);
+          match check_case(&reader, &info, c, &want, &full) {
+            Verdict::Same => {
+              local_out.insert(format!("same/{}", if live { "heap-full" } else { "all-returned" }));
+            }
+            Verdict::TiePermuted => {
+              tie_perm.fetch_add(1, Ordering::Relaxed);
+              local_out.insert("equal-up-to-near-ties".into());
+            }
+            Verdict::Fail(sig, what) => {
+              local_out.insert(format!("differs[{}]", sig.unwrap_or("-")));
+              failing_trees.lock().entry(format!("{}/{}", sig.unwrap_or("-"), c.exec)).or_default().insert(qi);
+              log.add(sig, vec![wi as u64, qi as u64, limit as u64, ci as u64], || format!("{} q={} limit={} exec={} block={:?}: {}", world.describe(), q, limit, c.exec, c.block, what), || c.to_json(world));
+            }
+          }
+        }
+        // is pruning live? (profile counters of the wand run vs the number of matches)
+        if live && limit == 1 {
+          let mut r = json!({"query": q, "limit": limit, "execution": "wand", "profile": true});
+          r["return_stored"] = json!(false);
+          if let Ok(res) = search_caught(&reader, &req(r)) {
+            if let Some(p) = res.profile {
+              if p.execution.scored_docs < full.len() {
+                pruning_seen.fetch_add(1, Ordering::Relaxed);
+                local_out.insert("wand-skipped-documents".into());
+                if !rep.sample_full() {
+                  rep.sample(json!({"world": world.describe(), "query": q, "limit": limit, "matches": full.len(), "wand_scored_docs": p.execution.scored_docs}));
+                }
+              }
+            }
+          }
+        }
+      }
+    }
+    outcomes.lock().extend(local_out);
+  });
+  worlds_done.store(done, Ordering::Relaxed);
+  timed_out.store(capped, Ordering::Relaxed);
+  log.flush(&rep);
+  rep.add_evals(evals.load(Ordering::Relaxed));
+  let to = timed_out.load(Ordering::Relaxed);
+  let outs = outcomes.lock().clone();
+  if outs.len() < 2 {
+    vcore::ev::machinery_failure("C09: fewer than two distinct outcomes observed (vacuous)");
+  }
+  let cov = vcore::cov! {
+    "distinct_nontrivial" => nontrivial.load(Ordering::Relaxed),
+    "rule" => "a (world, query tree, limit) triple is non-trivial when the exhaustive run matches more documents than the limit, so the top-k heap fills and the pruning threshold is live; each is run under wand and under bmw with block sizes 1,2,3,128,300 (quick tier: 1,2,128; limits 1..3), and compared with the bm25 execution of the same request (ids in order, scores within 1e-5 relative, near-ties as classes)",
+    "worlds" => ws.len(),
+    "worlds_completed" => worlds_done.load(Ordering::Relaxed),
+    "world_space" => if quick { "every sequence of <=3 of 8 document shapes x every 1-2 segment layout, plus every multiset of 4 shapes (ascending and descending order) x {1 segment, split in the middle}" } else { "every sequence of <=5 of 8 document shapes x every 1-2 segment layout, plus every multiset of 6 shapes (ascending and descending order) x every 1-2 segment layout" },
+    "query_trees" => trees.len(),
+    "limits" => format!("1..min({max_limit}, docs)"),
+    "bmw_block_sizes" => blocks.to_vec(),
+    "cases_where_wand_scored_fewer_docs_than_matches" => pruning_seen.load(Ordering::Relaxed),
+    "equal_up_to_near_ties" => tie_perm.load(Ordering::Relaxed),
+    "distinct_observed_outcomes" => outs.len(),
+    "observed_outcomes" => outs.iter().cloned().collect::<Vec<_>>(),
+    "failure_classes" => log.classes().iter().map(|(s, n)| json!({"signature": s, "cases": n})).collect::<Vec<_>>(),
+    "failing_query_trees" => failing_trees.lock().iter().map(|(k, v)| json!({"class": k, "trees": v.iter().map(|i| trees[*i].clone()).collect::<Vec<_>>()})).collect::<Vec<_>>(),
+    "cap_hit" => if to { Some(format!("wall budget {deadline}s")) } else { None },
+    "exhaustive" => !to,
+  };
+  rep.finish(
+    cov,
+    vec![
+      "no aggregations, no cursor, default sort: the only configuration in which the pruning threshold is live".into(),
+      "worlds have no deletions; no term occurs in two scoring leaves of one tree (that is C16 / H9)".into(),
+      "exact ties are compared as classes, like near-ties (tie order itself is C10's obligation)".into(),
+    ],
+  )
 }
